@@ -73,7 +73,31 @@ def gen_word(rng):
         return ((rng.next() & 0xFFFFFFFF) << 32) | rng.choice([0, 1, 0xFFFFFFFF, 0xFFFFFFFE, 0x80000000])
     if k == 6:   # non-canonical band
         return P + rng.below(0xFFFFFFFF)
+    if k == 7:   # sparse word (1-3 bits set) or its complement
+        w = 0
+        for _ in range(1 + rng.below(3)):
+            w |= 1 << rng.below(64)
+        return w if rng.below(4) else (~w) & M64
     return rng.next()
+
+
+LIMBS = [0, 0, 1, 0xFFFFFFFF, 0xFFFFFFFE, 0x80000000, 0x7FFFFFFF]
+
+
+def gen_pair_limbs(rng):
+    """(a, b) whose exact 128-bit product has special 32-bit limbs (all-zero, all-one, single-bit or random):
+    a is a power of two (sometimes +-1), b the shifted limb pattern.  Reaches carry/borrow conditions of the
+    reduction that have probability ~2^-32 for uniform operands."""
+    limbs = [rng.choice(LIMBS) if rng.below(3) else (rng.next() & 0xFFFFFFFF) for _ in range(4)]
+    t = limbs[0] | (limbs[1] << 32) | (limbs[2] << 64) | (limbs[3] << 96)
+    i = rng.below(64)
+    a = 1 << i
+    b = (t >> i) & M64
+    if rng.below(4) == 0:
+        a = (a + rng.choice([1, M64])) & M64
+    if rng.below(2):
+        a, b = b, a
+    return a, b
 
 
 def gen_pair_mul_band(rng):
@@ -345,6 +369,23 @@ def _run_lines(exe, lines, env=None, timeout=3600):
     return p.returncode, out, p.stderr.decode()[-2000:]
 
 
+class _AnyReply(str):
+    """stands for the model's reply when the model driver could not be built (its build failure is already a
+    broken obligation): compares equal to every reply, so that the implementation-versus-specification part of a
+    campaign still runs and can find the failing input."""
+    def __eq__(self, other):
+        return True
+
+    def __ne__(self, other):
+        return False
+
+    def __hash__(self):
+        return 0
+
+
+NO_MODEL = "<no-model-driver>"
+
+
 def run_parallel(exe, lines, jobs=None, env=None, timeout=3600):
     """run lines through exe in `jobs` chunks; returns list of replies aligned with lines.
     A chunk whose process dies is re-run line by line to locate the crashing line."""
@@ -353,6 +394,8 @@ def run_parallel(exe, lines, jobs=None, env=None, timeout=3600):
     n = len(lines)
     if n == 0:
         return []
+    if exe is NO_MODEL:
+        return [_AnyReply()] * n
     size = max(1, (n + jobs - 1) // jobs)
     chunks = [(i, lines[i:i + size]) for i in range(0, n, size)]
     res = [None] * n
